@@ -110,6 +110,17 @@ int main(int argc, char **argv) {
       w.for_all([&](const size_t idx, long &v) { sw += " " + std::to_string(idx) + "=" + std::to_string(v); });
       line(sw);
       world.cf_barrier();
+      // the same binary wrappers with operand 0 on element 6 (a non-bool value type: logical_or(6, 0) is 1, not 6)
+      // bit_and 0, bit_or 6, bit_xor 6, logical_and 0, logical_or 1, multiplies 0, plus 6, minus 6
+      ygm::container::array<long> z(world, 8 + 3, 6);
+      if (me == 0) {
+        z.async_bit_and(0, 0); z.async_bit_or(1, 0); z.async_bit_xor(2, 0); z.async_logical_and(3, 0); z.async_logical_or(4, 0);
+        z.async_multiplies(5, 0); z.async_plus(6, 0); z.async_minus(7, 0);
+      }
+      std::string sz = "WZ " + std::to_string(R) + " " + std::to_string(me) + " :";
+      z.for_all([&](const size_t idx, long &v) { sz += " " + std::to_string(idx) + "=" + std::to_string(v); });
+      line(sz);
+      world.cf_barrier();
     }
   } else if (mode == "bag") {
     for (int T = 0; T <= maxv; ++T) {
